@@ -247,6 +247,12 @@ func (s *Serializer) writeSliceLength(l int, lenType SeriLengthPrefixType, errPr
 
 			return
 		}
+	case SeriLengthPrefixTypeAsUint64:
+		if err := binary.Write(&s.buf, binary.LittleEndian, uint64(l)); err != nil {
+			s.err = errProducer(err)
+
+			return
+		}
 	default:
 		panic(fmt.Sprintf("unknown slice length type %v", lenType))
 	}
@@ -773,23 +779,28 @@ func (d *Deserializer) ReadVariableByteSlice(slice *[]byte, lenType SeriLengthPr
 	switch {
 	case maxLen > 0 && sliceLength > maxLen:
 		d.err = errProducer(ierrors.Wrapf(ErrDeserializationLengthMaxExceeded, "denoted %d bytes, max allowed %d ", sliceLength, maxLen))
+
+		return d
 	case minLen > 0 && sliceLength < minLen:
 		d.err = errProducer(ierrors.Wrapf(ErrDeserializationLengthMinNotReached, "denoted %d bytes, min required %d ", sliceLength, minLen))
-	}
-
-	dest := make([]byte, sliceLength)
-	if sliceLength == 0 {
-		*slice = dest
 
 		return d
 	}
 
+	if sliceLength == 0 {
+		*slice = make([]byte, 0)
+
+		return d
+	}
+
+	// the length denotation is untrusted: only allocate once we know that the data is actually there
 	if len(d.src[d.offset:]) < sliceLength {
 		d.err = errProducer(ErrDeserializationNotEnoughData)
 
 		return d
 	}
 
+	dest := make([]byte, sliceLength)
 	copy(dest, d.src[d.offset:d.offset+sliceLength])
 	*slice = dest
 
@@ -824,6 +835,17 @@ func (d *Deserializer) readSliceLength(lenType SeriLengthPrefixType, errProducer
 		}
 		l = UInt32ByteSize
 		sliceLength = int(binary.LittleEndian.Uint32(d.src[d.offset : d.offset+UInt32ByteSize]))
+
+	case SeriLengthPrefixTypeAsUint64:
+		if l < UInt64ByteSize {
+			return 0, errProducer(ErrDeserializationNotEnoughData)
+		}
+		l = UInt64ByteSize
+		length := binary.LittleEndian.Uint64(d.src[d.offset : d.offset+UInt64ByteSize])
+		if length > math.MaxInt {
+			return 0, errProducer(ierrors.Wrapf(ErrDeserializationLengthInvalid, "length %d does not fit into an int", length))
+		}
+		sliceLength = int(length)
 
 	default:
 		panic(fmt.Sprintf("unknown slice length type %v", lenType))
@@ -1151,8 +1173,12 @@ func (d *Deserializer) ReadString(s *string, lenType SeriLengthPrefixType, errPr
 	switch {
 	case maxLen > 0 && strLen > maxLen:
 		d.err = errProducer(ierrors.Wrapf(ErrDeserializationLengthMaxExceeded, "string defined to be of %d bytes length but max %d is allowed", strLen, maxLen))
+
+		return d
 	case minLen > 0 && strLen < minLen:
 		d.err = errProducer(ierrors.Wrapf(ErrDeserializationLengthMinNotReached, "string defined to be of %d bytes length but min %d is required", strLen, minLen))
+
+		return d
 	}
 
 	if len(d.src[d.offset:]) < strLen {
